@@ -804,6 +804,17 @@ impl C04 {
                 }
             }
         }
+        // initialize_config: each authority is recorded in its own role, as the arguments name them
+        if name == "initialize_config" && v.ix.data.len() >= 106 {
+            if let Some(g) = c.acct("config").and_then(|k| v.post.data(&k)).and_then(decode::config) {
+                let arg = |o: usize| Pubkey::new_from_array(v.ix.data[o..o + 32].try_into().unwrap());
+                let (fa, ca, ra) = (arg(8), arg(40), arg(72));
+                if g.fee_authority != fa || g.collect_protocol_fees_authority != ca || g.reward_emissions_super_authority != ra {
+                    out.push(v04("authority_born_in_other_hands", idx, format!("initialize_config(fee authority {}, collect-protocol-fees authority {}, reward-emissions super authority {}) recorded {} / {} / {}", fa, ca, ra, g.fee_authority, g.collect_protocol_fees_authority, g.reward_emissions_super_authority)));
+                    return;
+                }
+            }
+        }
         // initialize_config: the funder must be an admin key
         if name == "initialize_config" {
             if let Some(i) = c.idx("funder") {
